@@ -308,4 +308,66 @@ mod io_hosts {
         core::mem::forget(r); core::mem::forget(args);
         assert!(err == Some(10_006) && inp.pos == 0 && h.rfile.pos == 0);
     }
+
+    /// STAND-IN for std's private `default_read_to_end` (probe buffers, adaptive growth: every harness reaching it timed out at 300 s):
+    /// "read until `read` answers 0, appending what was read" -- its documented meaning, two bytes at a time
+    fn simple_read_to_end<R: io::Read + ?Sized>(r: &mut R, buf: &mut Vec<u8>, _size_hint: Option<usize>) -> io::Result<usize> {
+        let mut total = 0usize;
+        let mut chunk = [0u8; 2];
+        loop {
+            let n = r.read(&mut chunk)?;
+            if n == 0 { return Ok(total); }
+            buf.extend_from_slice(&chunk[..n]);
+            total += n;
+        }
+    }
+    /// whole io_read with EVERY negative count (complete in the count): error continuation with category 3 (InvalidInput); nothing is read
+    #[kani::proof] #[kani::unwind(4)]
+    #[kani::stub(extracted::HostContinuation::io_error, io_error_stub)]
+    #[kani::stub(std::io::default_read_to_end, simple_read_to_end)]
+    fn io_read_negative_count() {
+        let count: i64 = kani::any();
+        kani::assume(count < 0);
+        let mut h = host(true);
+        h.rfile.data = b"abc";
+        let mut inp = ModelReader { data: b"abc", pos: 0, fail: None };
+        let mut out = std::io::sink();
+        let args = [SemValue::Host(HostValue::Reader(rh(5))), SemValue::Literal(Literal::Integer(IntegerLiteral::Int64(count))), marker(10), marker(11)];
+        let r = io_read(&args, &mut inp, &mut out, &[], &mut h);
+        let err = r.as_ref().err().copied();
+        core::mem::forget(r); core::mem::forget(args);
+        assert!(err == Some(10_003) && inp.pos == 0 && h.rfile.pos == 0);
+    }
+    /// whole io_read / io_read_all, BOUNDED (fixed contents; fixed handle/table state per harness): at most `count` bytes, fewer at end
+    /// of input, a count far beyond the contents is not an allocation request; read_all reads everything
+    fn check_read(x: usize, open: bool, count: Option<i64>, data: &'static [u8], want: Option<(usize, Option<u8>, Option<u8>)>, consumed: usize) {
+        let mut h = host(open);
+        h.rfile.data = data;
+        let mut inp = ModelReader { data, pos: 0, fail: None };
+        let mut out = std::io::sink();
+        let r = match count {
+            | Some(c) => { let args = [SemValue::Host(HostValue::Reader(rh(x))), SemValue::Literal(Literal::Integer(IntegerLiteral::Int64(c))), marker(10), marker(11)]; let r = io_read(&args, &mut inp, &mut out, &[], &mut h); core::mem::forget(args); r }
+            | None => { let args = [SemValue::Host(HostValue::Reader(rh(x))), marker(10), marker(11)]; let r = io_read_all(&args, &mut inp, &mut out, &[], &mut h); core::mem::forget(args); r }
+        };
+        let (got, err, bytes) = (selected(&r), r.as_ref().err().copied(), outer_arg_bytes(&r));
+        core::mem::forget(r);
+        match want {
+            | None => assert!(err == Some(10_006) && inp.pos == 0 && h.rfile.pos == 0),
+            | Some(w) => assert!(matches!(got, Some((11, 1, _))) && bytes == Some(w) && (if x == 0 { inp.pos } else { h.rfile.pos }) == consumed),
+        }
+    }
+    macro_rules! read_case {
+        ($name:ident, $unwind:expr, $x:expr, $open:expr, $count:expr, $data:expr, $want:expr, $consumed:expr) => {
+            #[kani::proof] #[kani::unwind($unwind)]
+            #[kani::stub(extracted::HostContinuation::io_error, io_error_stub)]
+            #[kani::stub(std::io::default_read_to_end, simple_read_to_end)]
+            fn $name() { check_read($x, $open, $count, $data, $want, $consumed) }
+        };
+    }
+    read_case!(io_read_two_of_three, 4, 5, true, Some(2), b"abc", Some((2, Some(b'a'), Some(b'b'))), 2);
+    read_case!(io_read_zero, 4, 0, false, Some(0), b"abc", Some((0, None, None)), 0);
+    read_case!(io_read_beyond_end, 4, 0, false, Some(i64::MAX), b"abc", Some((3, Some(b'a'), Some(b'c'))), 3);
+    read_case!(io_read_closed, 4, 5, false, Some(2), b"abc", None, 0);
+    read_case!(io_read_all_file, 4, 5, true, None, b"abc", Some((3, Some(b'a'), Some(b'c'))), 3);
+    read_case!(io_read_all_stdin_empty, 4, 0, false, None, b"", Some((0, None, None)), 0);
 }
